@@ -651,6 +651,61 @@ Proof.
   - cbn [length]. lia.
 Qed.
 
+(* ------------------------------------------------------------------ *)
+(* the edge of the quantifier *)
+
+(* "given in any order": the three hypotheses do not depend on the order of the log *)
+Theorem hyps_perm_invariant : forall log log', Permutation log log' ->
+  ids_distinct log -> closed log -> acyclic log ->
+  ids_distinct log' /\ closed log' /\ acyclic log'.
+Proof.
+  intros log log' P IDS CL [rank AC]. split; [|split].
+  - unfold ids_distinct. apply (Permutation_NoDup (l := map rid log)); [|assumption].
+    apply Permutation_map. assumption.
+  - intros r Hr p Hp.
+    apply (Permutation_in (l := map rid log)); [apply Permutation_map; assumption|].
+    apply (CL r); [|assumption]. apply (Permutation_in (l := log')); [apply Permutation_sym|]; assumption.
+  - exists rank. intros r Hr p Hp. apply (AC r); [|assumption].
+    apply (Permutation_in (l := log')); [apply Permutation_sym|]; assumption.
+Qed.
+
+(* a log that lists one revision twice is OUTSIDE the property: the code as it is
+   yields that revision twice (the hypothesis ids_distinct cannot be dropped) *)
+Theorem duplicate_entry_yielded_twice : exists log out,
+  closed log /\ acyclic log /\ toposort fifo log = TopoOk out /\ ~ NoDup (map rid out).
+Proof.
+  exists [(1, []); (1, []); (2, [1])]%N, [(1, []); (1, []); (2, [1])]%N.
+  split; [|split; [|split]].
+  - intros r Hr p Hp. apply memN_In. cbn [In] in Hr.
+    destruct Hr as [<-|[<-|[<-|[]]]]; cbn [rparents snd In] in Hp;
+      repeat (destruct Hp as [<-|Hp]; [reflexivity|]); destruct Hp.
+  - exists N.to_nat. intros r Hr p Hp. cbn [In] in Hr.
+    destruct Hr as [<-|[<-|[<-|[]]]]; cbn [rparents rid fst snd In] in *;
+      repeat (destruct Hp as [<-|Hp]; [lia|]); destruct Hp.
+  - vm_compute. reflexivity.
+  - intro ND. apply nodupN_spec in ND. vm_compute in ND. discriminate.
+Qed.
+
+(* a log that lacks a parent is OUTSIDE the property: the child (and its
+   descendants) is silently never yielded (the hypothesis closed cannot be dropped) *)
+Theorem missing_parent_never_yielded : exists log out,
+  ids_distinct log /\ acyclic log /\ toposort fifo log = TopoOk out /\ length out < length log.
+Proof.
+  exists [(3, [2]); (2, [1])]%N, [].
+  split; [|split; [|split]].
+  - unfold ids_distinct. apply nodupN_spec. reflexivity.
+  - exists N.to_nat. intros r Hr p Hp. cbn [In] in Hr.
+    destruct Hr as [<-|[<-|[]]]; cbn [rparents rid fst snd In] in *;
+      repeat (destruct Hp as [<-|Hp]; [lia|]); destruct Hp.
+  - vm_compute. reflexivity.
+  - cbn [length]. lia.
+Qed.
+
+Theorem hypotheses_needed :
+  (exists log out, closed log /\ acyclic log /\ toposort fifo log = TopoOk out /\ ~ NoDup (map rid out)) /\
+  (exists log out, ids_distinct log /\ acyclic log /\ toposort fifo log = TopoOk out /\ length out < length log).
+Proof. exact (conj duplicate_entry_yielded_twice missing_parent_never_yielded). Qed.
+
 Print Assumptions toposort_correct.
 Print Assumptions is_topo_order_sound.
 Print Assumptions is_topo_order_complete.
